@@ -2097,24 +2097,55 @@ func (w *World) allocInitialisedFrom(v ssa.Value, src string) bool {
 func j2(w *World, r *Report) {
 	ds := needFn(r, "J-2", w, fref{pkgStake, "Delegatee", "doSlashAll"})
 	if ds != nil {
-		s := "recv.Stakes[(phi((φ + 1)|-1) + 1)]"
-		sl := "((" + s + ".Power * p0) / 100)"
-		st := w.findStore(ds, s+".Power", "("+s+".Power - "+sl+")")
-		r.Check(st != nil && len(w.storesToSuffix(ds, ".Power")) == 1, "J-2", "doSlashAll:reduction", "each stake loses power x ratio / 100 (rounded down)", "a stake's slashing is not `power x ratio / 100`", fnSite(w, ds))
-		r.Check(st != nil && w.condCanonHolds(st.Block(), "("+sl+" < 1)", -1), "J-2", "doSlashAll:only-if-reducible", "the reduction applies only when it is at least one power unit", "the threshold `slashed < 1` for forfeiting a stake changed", fnSite(w, ds))
-		// forfeited stakes are removed
-		rm := w.findCallMatch(ds, regexp.MustCompile(`^recv\.delStakeByHash\(.+\.TxHash\)$`))
-		ap := false
-		for _, b := range ds.Blocks {
-			for _, in := range b.Instrs {
-				if c, isC := in.(*ssa.Call); isC {
-					if bi, isB := c.Common().Value.(*ssa.Builtin); isB && bi.Name() == "append" && w.condCanonHolds(b, "("+sl+" < 1)", 1) {
-						ap = true
+		// the three steps may sit in doSlashAll or in helpers it calls on the same
+		// delegatee with the same ratio (a pipeline slash / drop / recompute); the
+		// stake is the element of a range loop or of an index loop from 0
+		hosts := []*ssa.Function{ds}
+		ratioHost := map[*ssa.Function]bool{ds: true}
+		for _, hc := range CallsIn(ds) {
+			g := hc.Common().StaticCallee()
+			if g == nil || !w.InModule(g) || g.Blocks == nil || g.Signature.Recv() == nil || len(hc.Common().Args) == 0 || w.Canon(hc.Common().Args[0]) != "recv" {
+				continue
+			}
+			hosts = append(hosts, g)
+			// a helper that takes the ratio takes doSlashAll's own
+			if len(hc.Common().Args) > 1 && w.Canon(hc.Common().Args[1]) == "p0" {
+				ratioHost[g] = true
+			}
+		}
+		okRed, okThr, okAp := false, false, false
+		var rm []ssa.CallInstruction
+		for _, h := range hosts {
+			rm = append(rm, w.findCallMatch(h, regexp.MustCompile(`^recv\.delStakeByHash\(.+\.TxHash\)$`))...)
+			for _, s := range []string{"recv.Stakes[(phi((φ + 1)|-1) + 1)]", "recv.Stakes[phi(0|(φ + 1))]", "recv.Stakes[phi((φ + 1)|0)]"} {
+				sl := "((" + s + ".Power * p0) / 100)"
+				st := w.findStore(h, s+".Power", "("+s+".Power - "+sl+")")
+				if st == nil || len(w.storesToSuffix(h, ".Power")) != 1 || !ratioHost[h] {
+					continue
+				}
+				okRed = true
+				if w.condCanonHolds(st.Block(), "("+sl+" < 1)", -1) {
+					okThr = true
+				}
+				for _, b := range h.Blocks {
+					for _, in := range b.Instrs {
+						if c, isC := in.(*ssa.Call); isC {
+							if bi, isB := c.Common().Value.(*ssa.Builtin); isB && bi.Name() == "append" && w.condCanonHolds(b, "("+sl+" < 1)", 1) {
+								okAp = true
+							}
+						}
 					}
 				}
 			}
 		}
-		r.Check(len(rm) == 1 && ap, "J-2", "doSlashAll:forfeit", "a stake too small to be reduced is removed (forfeited)", "stakes whose reduction would be below one unit are not forfeited", fnSite(w, ds))
+		nPow := 0
+		for _, h := range hosts {
+			nPow += len(w.storesToSuffix(h, ".Power"))
+		}
+		r.Check(okRed && nPow == 1, "J-2", "doSlashAll:reduction", "each stake loses power x ratio / 100 (rounded down)", "a stake's slashing is not `power x ratio / 100`", fnSite(w, ds))
+		r.Check(okThr, "J-2", "doSlashAll:only-if-reducible", "the reduction applies only when it is at least one power unit", "the threshold `slashed < 1` for forfeiting a stake changed", fnSite(w, ds))
+		// forfeited stakes are removed
+		r.Check(len(rm) == 1 && okAp, "J-2", "doSlashAll:forfeit", "a stake too small to be reduced is removed (forfeited)", "stakes whose reduction would be below one unit are not forfeited", fnSite(w, ds))
 	}
 	dp := needFn(r, "J-2", w, fref{"ctrlers/gov/proposal", "GovProposal", "DoPunish"})
 	if dp != nil {
